@@ -1085,4 +1085,272 @@ theorem unloadedByAddr_sorted (ms : List UnloadedM) :
   obtain ⟨mb, hmb, hrb⟩ := key b hb
   exact ⟨ma, mb, a.1, b.1, hma, hmb, hra, hrb, hab⟩
 
+/-! ## numbered lines, character by character -/
+
+/-- leading decimal digits followed by two spaces; `one`: exactly one digit, else at least two -/
+def numbered (one : Bool) (cs : List Char) : Bool :=
+  (if one then (cs.takeWhile isDigit).length == 1 else decide (2 ≤ (cs.takeWhile isDigit).length)) &&
+  (cs.dropWhile isDigit).take 2 == [' ', ' ']
+
+/-- the shape `{frame_idx:2}  …` of a numbered frame line — the very test engine `text`'s oracle
+    applies to the lines of the real output (`frame_line_index` in harness/src/engines/text.rs):
+    a space and ONE digit, or at least two digits, then two spaces -/
+def isFrameLine : List Char → Bool
+  | [] => false
+  | c :: rest => if c = ' ' then numbered true rest else numbered false (c :: rest)
+
+theorem takeWhile_digits (ds r : List Char) (c : Char) (hd : ds.all isDigit = true) (hc : isDigit c = false) :
+    (ds ++ c :: r).takeWhile isDigit = ds ∧ (ds ++ c :: r).dropWhile isDigit = c :: r := by
+  induction ds with
+  | nil => simp [hc]
+  | cons d ds ih =>
+    simp only [List.all_cons, Bool.and_eq_true] at hd
+    simp [hd.1, ih hd.2]
+
+theorem natDigits_all (n : Nat) : (natDigits n).all isDigit = true :=
+  digitsB_all 10 isDigit (by decide) (fun d hd => (digitChar_dec d hd).1) n
+
+theorem natDigits_small (n : Nat) (h : n < 10) : natDigits n = [digitChar n] := by
+  unfold natDigits
+  rw [digitsB_eq, if_pos (Or.inl h)]
+
+theorem natDigits_large (n : Nat) (h : 10 ≤ n) : 2 ≤ (natDigits n).length := by
+  unfold natDigits
+  rw [digitsB_eq, if_neg (by omega)]
+  have := digitsB_ne_nil 10 (n / 10)
+  cases hd : digitsB 10 (n / 10) with
+  | nil => exact absurd hd this
+  | cons a b => simp
+
+/-- a numbered line is recognised as one -/
+theorem isFrameLine_numbered (i : Nat) (body : List Char) :
+    isFrameLine (padSp 2 (dec i) ++ "  ".toList ++ body) = true := by
+  have hsp : isDigit ' ' = false := by decide
+  have h2 : "  ".toList = [' ', ' '] := rfl
+  rw [h2]
+  by_cases hi : i < 10
+  · have hd := (digitChar_dec i hi).1
+    have e : padSp 2 (dec i) ++ [' ', ' '] ++ body = ' ' :: ([digitChar i] ++ ' ' :: (' ' :: body)) := by
+      simp [dec, natDigits_small i hi, padSp]
+    obtain ⟨t1, t2⟩ := takeWhile_digits [digitChar i] (' ' :: body) ' ' (by simp [hd]) hsp
+    rw [e]
+    show (if ' ' = ' ' then numbered true ([digitChar i] ++ ' ' :: (' ' :: body))
+          else numbered false (' ' :: ([digitChar i] ++ ' ' :: (' ' :: body)))) = true
+    rw [if_pos rfl]
+    unfold numbered
+    rw [t1, t2]
+    simp
+  · have hlen := natDigits_large i (by omega)
+    have hall := natDigits_all i
+    have hpad : padSp 2 (dec i) = natDigits i := by
+      simp only [padSp, dec]
+      have : 2 - (natDigits i).length = 0 := by omega
+      rw [this]; rfl
+    rw [hpad]
+    cases hds : natDigits i with
+    | nil => rw [hds] at hlen; simp at hlen
+    | cons c rest =>
+      have hc : isDigit c = true := by
+        rw [hds] at hall
+        simp only [List.all_cons, Bool.and_eq_true] at hall
+        exact hall.1
+      have hne : c ≠ ' ' := by
+        intro h; rw [h] at hc; rw [hsp] at hc; cases hc
+      obtain ⟨t1, t2⟩ := takeWhile_digits (c :: rest) (' ' :: body) ' ' (by rw [← hds]; exact hall) hsp
+      have e : (c :: rest) ++ [' ', ' '] ++ body = c :: (rest ++ ' ' :: (' ' :: body)) := by simp
+      rw [e]
+      show (if c = ' ' then numbered true (rest ++ ' ' :: (' ' :: body))
+            else numbered false (c :: (rest ++ ' ' :: (' ' :: body)))) = true
+      rw [if_neg hne]
+      have e2 : c :: (rest ++ ' ' :: (' ' :: body)) = (c :: rest) ++ ' ' :: (' ' :: body) := rfl
+      rw [e2]
+      unfold numbered
+      rw [t1, t2]
+      have h1 : 1 ≤ rest.length := by
+        have h0 : (natDigits i).length = rest.length + 1 := by rw [hds]; rfl
+        omega
+      simp
+      exact h1
+
+/-- what the other lines of a call-stack block look like: empty, or starting with a character that
+    is neither a space nor a digit, or a space followed by nothing or by another space -/
+def NotNumbered (cs : List Char) : Prop :=
+  cs = [] ∨ (∃ c r, cs = c :: r ∧ c ≠ ' ' ∧ isDigit c = false) ∨
+  (∃ r, cs = ' ' :: r ∧ (r = [] ∨ ∃ r', r = ' ' :: r'))
+
+theorem isFrameLine_notNumbered (cs : List Char) (h : NotNumbered cs) : isFrameLine cs = false := by
+  have hsp : isDigit ' ' = false := by decide
+  rcases h with rfl | ⟨c, r, rfl, hc, hd⟩ | ⟨r, rfl, hr⟩
+  · rfl
+  · simp [isFrameLine, hc, numbered, List.takeWhile, hd]
+  · rcases hr with rfl | ⟨r', rfl⟩
+    · simp [isFrameLine, numbered]
+    · simp [isFrameLine, numbered, List.takeWhile, hsp]
+
+/-- every line of a call-stack block is a numbered frame line (kind and characters) or a plain
+    line that cannot be mistaken for one -/
+def StackLineOK (l : TLine) : Prop :=
+  (∃ i body, l.kind = .frame i ∧ l.text = padSp 2 (dec i) ++ "  ".toList ++ body) ∨
+  (l.kind = .plain ∧ NotNumbered l.text)
+
+theorem exists_body4 (p a b c d : List Char) : ∃ body, p ++ a ++ b ++ c ++ d = p ++ body :=
+  ⟨a ++ b ++ c ++ d, by simp [List.append_assoc]⟩
+
+theorem notNumbered_two_spaces (r : List Char) : NotNumbered (' ' :: ' ' :: r) :=
+  Or.inr (Or.inr ⟨_, rfl, Or.inr ⟨r, rfl⟩⟩)
+
+theorem regLoop_lines (c : RegCtx) : ∀ (rs : List (String × Nat)) (out : List (List Char)) (cur : List Char),
+    (∀ l ∈ out, NotNumbered l) → (cur = [] ∨ ∃ r, cur = ' ' :: r) →
+    ∀ l ∈ regLoop c rs out cur, NotNumbered l
+  | [], out, cur, hout, hcur, l, hl => by
+    simp only [regLoop, List.mem_reverse] at hl
+    split at hl
+    · exact hout l hl
+    · rcases List.mem_cons.mp hl with rfl | h
+      · rcases hcur with rfl | ⟨r, rfl⟩
+        · exact Or.inr (Or.inr ⟨_, rfl, Or.inl rfl⟩)
+        · exact notNumbered_two_spaces r
+      · exact hout l h
+  | r :: rest, out, cur, hout, hcur, l, hl => by
+    have hflush : NotNumbered (' ' :: cur) := by
+      rcases hcur with rfl | ⟨r', rfl⟩
+      · exact Or.inr (Or.inr ⟨_, rfl, Or.inl rfl⟩)
+      · exact notNumbered_two_spaces r'
+    have hcell : ∃ r', regCell c r = ' ' :: r' := ⟨_, rfl⟩
+    simp only [regLoop] at hl
+    split at hl
+    · split at hl
+      · refine regLoop_lines c rest _ _ ?_ (Or.inr hcell) l hl
+        intro l' hl'
+        rcases List.mem_cons.mp hl' with rfl | h
+        · exact hflush
+        · exact hout l' h
+      · refine regLoop_lines c rest out _ hout ?_ l hl
+        rcases hcur with rfl | ⟨r', rfl⟩
+        · exact Or.inr (by simpa using hcell)
+        · exact Or.inr ⟨_, rfl⟩
+    · exact regLoop_lines c rest out cur hout hcur l hl
+
+theorem regLines_ok (c : RegCtx) : ∀ l ∈ regLines c, StackLineOK l := by
+  intro l hl
+  simp only [regLines, List.mem_map] at hl
+  obtain ⟨cs, hcs, rfl⟩ := hl
+  exact Or.inr ⟨rfl, regLoop_lines c c.gpr [] [] (fun _ h => by simp at h) (Or.inl rfl) cs hcs⟩
+
+theorem inlineLines_ok (f : FrameM) : ∀ (n : Nat) (is : List InlineM), ∀ l ∈ inlineLines f n is, StackLineOK l
+  | _, [], l, hl => by simp [inlineLines] at hl
+  | n, i :: rest, l, hl => by
+    simp only [inlineLines, List.mem_cons] at hl
+    rcases hl with rfl | rfl | h
+    · obtain ⟨body, hb⟩ := exists_body4 (padSp 2 (dec n) ++ "  ".toList)
+        (match f.module with
+         | some (name, _) => baseN name
+         | none => []) ['!'] i.function.toList
+        (match i.file, i.line with
+         | some file, some line => " [".toList ++ baseN file ++ " : ".toList ++ dec line ++ [']']
+         | _, _ => [])
+      exact Or.inl ⟨n, body, rfl, hb⟩
+    · exact Or.inr ⟨rfl, notNumbered_two_spaces _⟩
+    · exact inlineLines_ok f (n + 1) rest l h
+
+theorem argLines_ok (pb : Nat) : ∀ (n : Nat) (as : List (String × Option Nat)), ∀ l ∈ argLines pb n as, StackLineOK l
+  | _, [], l, hl => by simp [argLines] at hl
+  | n, (nm, v) :: rest, l, hl => by
+    simp only [argLines, List.mem_cons] at hl
+    rcases hl with rfl | h
+    · exact Or.inr ⟨rfl, notNumbered_two_spaces _⟩
+    · exact argLines_ok pb (n + 1) rest l h
+
+theorem argsLines_ok (x : FrameX) : ∀ l ∈ argsLines x, StackLineOK l := by
+  intro l hl
+  unfold argsLines at hl
+  split at hl
+  · simp at hl
+  · simp only [List.mem_cons, List.mem_append, List.not_mem_nil, or_false] at hl
+    rcases hl with rfl | h | rfl
+    · exact Or.inr ⟨rfl, notNumbered_two_spaces _⟩
+    · exact argLines_ok _ 0 _ l h
+    · exact Or.inr ⟨rfl, Or.inl rfl⟩
+
+theorem framesLines_ok : ∀ (n : Nat) (ps : List (FrameM × FrameX)) (ls : List TLine),
+    framesLines n ps = .ok ls → ∀ l ∈ ls, StackLineOK l
+  | n, [], ls, h, l, hl => by
+    simp only [framesLines] at h
+    cases h
+    simp at hl
+  | n, (f, x) :: rest, ls, h, l, hl => by
+    simp only [framesLines] at h
+    obtain ⟨body, _, h⟩ := obind_ok h
+    obtain ⟨more, hmore, h⟩ := obind_ok h
+    cases h
+    simp only [List.mem_append, List.mem_cons, List.not_mem_nil, or_false] at hl
+    rcases hl with ((((h1 | rfl) | h1) | rfl) | h1) | h1
+    · exact inlineLines_ok f n f.inlines l h1
+    · exact Or.inl ⟨_, body, rfl, rfl⟩
+    · exact regLines_ok f.ctx l h1
+    · exact Or.inr ⟨rfl, notNumbered_two_spaces _⟩
+    · exact argsLines_ok x l h1
+    · exact framesLines_ok (n + f.inlines.length + 1) rest more hmore l h1
+
+theorem stackLines_ok (t : ThreadM) (x : ThreadX) (ls : List TLine) (h : stackLines t x = .ok ls) :
+    ∀ l ∈ ls, StackLineOK l := by
+  simp only [stackLines] at h
+  obtain ⟨fl, hfl, h⟩ := obind_ok h
+  cases h
+  intro l hl
+  rcases List.mem_append.mp hl with h1 | h1
+  · split at h1
+    · simp only [List.mem_cons, List.not_mem_nil, or_false] at h1
+      subst h1
+      exact Or.inr ⟨rfl, Or.inr (Or.inl ⟨'<', _, rfl, by decide, by decide⟩)⟩
+    · simp at h1
+  · exact framesLines_ok 0 _ fl hfl l h1
+
+/-- kind and characters agree on every line of a call-stack block -/
+theorem stackLines_chars (t : ThreadM) (x : ThreadX) (ls : List TLine) (h : stackLines t x = .ok ls) :
+    ∀ l ∈ ls, isFrameLine l.text = (frameOf l).isSome := by
+  intro l hl
+  rcases stackLines_ok t x ls h l hl with ⟨i, body, hk, ht⟩ | ⟨hk, hn⟩
+  · rw [ht, isFrameLine_numbered]
+    simp [frameOf, hk]
+  · rw [isFrameLine_notNumbered _ hn]
+    simp [frameOf, hk]
+
+theorem filterMap_length_eq_filter {β : Type} (f : TLine → Option β) (ls : List TLine) :
+    (ls.filterMap f).length = (ls.filter fun l => (f l).isSome).length := by
+  induction ls with
+  | nil => rfl
+  | cons l rest ih =>
+    cases h : f l <;> simp [List.filterMap_cons, List.filter_cons, h, ih]
+
+/-! ## from the characters back to the lines -/
+
+/-- split at `\n` (`acc`: the current piece, reversed); a trailing piece without `\n` is kept -/
+def splitLines : List Char → List Char → List (List Char)
+  | [], acc => if acc.isEmpty then [] else [acc.reverse]
+  | c :: r, acc => if c = '\n' then acc.reverse :: splitLines r [] else splitLines r (c :: acc)
+
+theorem splitLines_line (t rest acc : List Char) (h : '\n' ∉ t) :
+    splitLines (t ++ '\n' :: rest) acc = (acc.reverse ++ t) :: splitLines rest [] := by
+  induction t generalizing acc with
+  | nil => simp [splitLines]
+  | cons c t ih =>
+    simp only [List.mem_cons, not_or] at h
+    have hc : c ≠ '\n' := fun e => h.1 e.symm
+    simp only [List.cons_append, splitLines, if_neg hc, ih (c :: acc) h.2, List.reverse_cons, List.append_assoc,
+      List.nil_append]
+
+/-- when no line contains a newline, the written characters split back into exactly the lines -/
+theorem splitLines_render (ls : List TLine) (h : ∀ l ∈ ls, '\n' ∉ l.text) :
+    splitLines (renderLines ls) [] = ls.map (·.text) := by
+  induction ls with
+  | nil => rfl
+  | cons l rest ih =>
+    have h1 := h l List.mem_cons_self
+    have h2 := ih (fun x hx => h x (List.mem_cons_of_mem _ hx))
+    have e : renderLines (l :: rest) = l.text ++ '\n' :: renderLines rest := by
+      simp [renderLines]
+    rw [e, splitLines_line _ _ _ h1, h2]
+    simp
+
 end MdModel.Text
